@@ -165,6 +165,8 @@ class DbLayouts(Fam):
         if len(run['list']) >= 2:
             run['list'][0], run['list'][1] = run['list'][1], run['list'][0]
             run['closest_g'] = run['list'][0]['g']
+            run['json'] = [x['g'] for x in run['list']]
+            run['csv_g'] = run['closest_g']
         else:
             run['list'] = []
         return rec
@@ -190,6 +192,7 @@ def db_layout_records(inp, tmp):
     ordered = [w['genomes'][i] for i in inp['order']]
     dbt = W.world_for_tlc(dict(w, genomes=ordered))
     gidx = {g['key']: i + 1 for i, g in enumerate(ordered)}
+    by_desc = {g['desc']: i + 1 for i, g in enumerate(ordered)}
     n = len(w['genomes'])
     recs = []
     db = ReferenceDatabase.load_from_dir(d)
@@ -200,13 +203,23 @@ def db_layout_records(inp, tmp):
             sigs = SignatureArray([W.real_signature(w['kspec'], contigs)], ks)
             for chunk in (None, 1, 2, 4, 1000):
                 for N in (1, 3, n + 2):
-                    run = dict(chunk=-1 if chunk is None else chunk, N=N, ok=False, err='', list=[], closest_g=0)
+                    run = dict(chunk=-1 if chunk is None else chunk, N=N, ok=False, err='', list=[], closest_g=0, json=[], csv_g=0)
                     try:
                         res = query(db, sigs, QueryParams(report_closest=N, chunksize=chunk))
                         it = res.items[0]
                         run['list'] = [dict(g=gidx[m.genome.key], d=f32_bits(m.distance), mt=0 if m.matched_taxon is None else int(m.matched_taxon.key[3:]))
                                        for m in it.closest_genomes]
                         run['closest_g'] = gidx[it.classifier_result.closest_match.genome.key]
+                        # the same result through the JSON and CSV exporters
+                        import csv as _csv, io as _io, json as _json
+                        from gambit.results import JSONResultsExporter, CSVResultsExporter
+                        buf = _io.StringIO()
+                        JSONResultsExporter().export(buf, res)
+                        run['json'] = [gidx[m['genome']['key']] for m in _json.loads(buf.getvalue())['items'][0]['closest_genomes']]
+                        buf = _io.StringIO(newline='')
+                        CSVResultsExporter().export(buf, res)
+                        row = list(_csv.reader(_io.StringIO(buf.getvalue(), newline='')))[1]
+                        run['csv_g'] = by_desc.get(row[6], 0)
                         run['ok'] = True
                     except Exception as e:
                         run['err'] = f'{type(e).__name__}: {e}'[:120]
